@@ -13,6 +13,10 @@ claims={
         "For both collateral documents every accept path with GetCollateral enforces the issuer-chain, role, path-validation and raw-member signature gates with the stated operands, and every decoded value consumed by any gate is decoded from the very bytes whose signature is checked."),
  "C04":("must-pass-through gates with operand provenance, first-match loop structure, exact-selection rule, unit propagation over path gates, error-flow",
         "Identity gates, the shape/sides/operators/indices of the platform and TDX-module level selection, first-match order, UpToDate verdicts for platform and (when TEE_TCB_SVN[1]>0) module level on every accept path, and the reporting API returning both selector errors."),
+ "C05":("must-pass-through gates with operand provenance + complete (break-free, full-range) forall scan gates + partition emptiness",
+        "With revocation on, every accept path fetches, parses and authenticates both CRLs against the stated certificates, checks PCK-CRL issuer == leaf issuer, and scans the right CRL for the right serial over the whole list; CheckRevocations without GetCollateral has no accept path."),
+ "C06":("pairing table over enforced time gates + exactness of time comparisons + default time set shape",
+        "Every time-bearing artifact has an enforced !now.After(expiry) gate against its own TimeSet field in the partition that fetches it, no time gate pairs an artifact with a foreign field, x509 validations run at the matching field, and the default time set is five time.Now() calls."),
 }
 na={"C11":"acceptance of every honest quote is an existential, value-dependent completeness property; no structural necessary condition of it is both statically checkable and sensitive to realistic over-strict changes (DESIGN.md section 4/C11)"}
 setup="cd /verif/checker && GOFLAGS=-mod=mod GOPROXY=off GOSUMDB=off GOTOOLCHAIN=local GOWORK=off go build -o /verif/bin/tdxlint ./cmd/tdxlint"
